@@ -110,6 +110,9 @@ def run_case(
     src: str | None = None,
     keep: bool = False,
     extra_pre: Any = None,
+    out_spelling: str = "abs",
+    out_sub: str = "o",
+    src_root_name: str = "s",
 ) -> dict:
     """Run the tool in-process on `files` (paths relative to a fresh scratch root).
 
@@ -120,8 +123,8 @@ def run_case(
     options = options or {}
     _patch_metadata()
     base = Path(tempfile.mkdtemp(prefix="vfcase_", dir=TMP_ROOT))
-    srcroot = base / "s"
-    out = base / "o"
+    srcroot = base / src_root_name
+    out = base / out_sub
     cwd = base / "cwd"
     cwd.mkdir()
     write_files(srcroot, files)
@@ -129,7 +132,8 @@ def run_case(
         tops = sorted({rel.split("/")[0] for rel in files})
         src = tops[0] if len(tops) == 1 else ""
     src_path = srcroot / src if src else srcroot
-    argv = ["safe-ds-stubgen", "-s", str(src_path), "-o", str(out), *option_args(options)]
+    out_arg = str(out) if out_spelling == "abs" else os.path.relpath(out, cwd) + ("/" if out_spelling == "rel_slash" else "")
+    argv = ["safe-ds-stubgen", "-s", str(src_path), "-o", out_arg, *option_args(options)]
 
     handler = _ListHandler()
     root_logger = logging.getLogger()
@@ -179,6 +183,9 @@ def run_case(
                 res["api_error"] = str(e)
     res["src"] = str(src_path)
     res["out"] = str(out)
+    res["stray_stubs"] = sorted(str(p.relative_to(base)) for p in base.rglob("*.sdsstub") if out not in p.parents) + sorted(
+        str(p.relative_to(base)) for p in base.rglob("*__api.json") if out not in p.parents
+    )
     if keep:
         res["base"] = str(base)
     else:
